@@ -45,6 +45,17 @@ def bn_cdf(z: np.ndarray, g: float) -> np.ndarray:
     return np.clip(out, 0.0, 1.0)
 
 
+def p_opposed(g: np.ndarray) -> np.ndarray:
+    """Probability that zeta points against the force, F_{|g|}(0), vectorised."""
+    a = np.abs(np.asarray(g, dtype=float))
+    out = np.full(a.shape, 0.5)
+    m = a > 1e-6
+    am = a[m]
+    em2 = np.exp(-2 * am)
+    out[m] = (-np.expm1(-2 * am) / (2 * am) - em2) / (-np.expm1(-2 * am))
+    return out
+
+
 def ks_distance(sample: np.ndarray, g: float) -> float:
     s = np.sort(sample)
     n = len(s)
@@ -60,6 +71,10 @@ class C13Monitor(FBMonitor):
         self.zetas = []
         self.has_constraints = bool(w.sc["atoms"].get("constraints"))
         self.gamma_ref = None
+        shape = (len(w.atoms), 3)
+        self.opp = np.zeros(shape)
+        self.opp_exp = np.zeros(shape)
+        self.opp_var = np.zeros(shape)
 
     def before_step(self, w, pre):
         if w.gen is not None:
@@ -99,6 +114,14 @@ class C13Monitor(FBMonitor):
             self.violate(w, "too_many_evaluations_per_step", ctx, f"{post['nevals'] - pre['nevals']} calculator evaluations in one step")
         if not np.all(np.isfinite(post["positions"])):
             self.violate(w, "non_finite_positions", ctx, "positions became non-finite")
+        # "displacement along the force is favoured, increasingly with |gamma|": count draws against the force
+        if not self.has_constraints:
+            z = np.asarray(mc.zeta)
+            strong = np.abs(gam) >= 1.0
+            p = p_opposed(gam)
+            self.opp += strong & (z * gam < 0)
+            self.opp_exp += np.where(strong, p, 0.0)
+            self.opp_var += np.where(strong, p * (1 - p), 0.0)
         if w.sc.get("collect"):
             if self.gamma_ref is None:
                 self.gamma_ref = np.array(gam, copy=True)
@@ -125,6 +148,21 @@ def run_fb(sc):
                     f"[{np.min(w.mc.gamma):.3g}, {np.max(w.mc.gamma):.3g}]")
     w.mc.close()
     return w, mon
+
+
+def opposed_flags(mons, sigmas=6.0, slack=3.0):
+    """Coordinates whose number of draws against the force exceeds what the density allows.
+    -> list of (idx, observed, expected, sd)"""
+    opp = sum(m.opp for m in mons)
+    exp = sum(m.opp_exp for m in mons)
+    var = sum(m.opp_var for m in mons)
+    out = []
+    for idx in np.ndindex(opp.shape):
+        if exp[idx] > 0 or opp[idx] > 0:
+            sd = math.sqrt(var[idx])
+            if opp[idx] - exp[idx] > sigmas * sd + slack:
+                out.append((idx, float(opp[idx]), float(exp[idx]), sd))
+    return out
 
 
 def density_flags(mon, min_gamma=1e-6):
@@ -180,7 +218,7 @@ class C13(Campaign):
             for j in range(3):
                 d = delta[i][j] if per_coord else delta
                 if density:
-                    g = rnd.choice([-1, 1]) * gen.logu(rnd, 0.05, 30.0)
+                    g = rnd.choice([-1, 1]) * (gen.logu(rnd, 0.05, 30.0) if rnd.random() < 0.6 else gen.logu(rnd, 30.0, 900.0))
                     row.append(g * 2 * T * kB / d)
                 else:
                     kind = rnd.choice(["zero", "tiny", "moderate", "moderate", "huge", "clip"])
@@ -241,6 +279,31 @@ class C13(Campaign):
         p = sc["params"].get("masses_scaling_power")
         res.cover.add(f"{sc['driver']}|{'percoord' if d.ndim else 'scalar'}|{classes}|"
                       f"{'default' if p is None else 'array' if isinstance(p, list) else 'float'}|{int(bool(sc.get('collect')))}")
+        if not res.violations and not res.harness_error and sc["driver"] == "ForceBias":
+            fl = opposed_flags([mon])
+            res.count("probe.opposed_draw_tests")
+            if fl:
+                res.count("probe.stage1_flag_opposed")
+                mons = []
+                for j in range(4):
+                    c = copy.deepcopy(sc)
+                    c["seed"] = derive(sc["seed"], "confirm-opp", j) % (2**31 - 1) + 1
+                    c["steps"] = [{"n": max(40, 4 * sum(s["n"] for s in sc["steps"]))}]
+                    c["collect"] = False
+                    try:
+                        mons.append(run_fb(c)[1])
+                    except Exception:  # noqa: BLE001
+                        mons = []
+                        break
+                nst = 4 * max(40, 4 * sum(s["n"] for s in sc["steps"]))
+                conf = [x for x in opposed_flags(mons, 8.0, 5.0) if (x[1] - x[2]) / nst > 0.02] if mons else []
+                if conf:
+                    idx, o, e, sd = conf[0]
+                    g0 = float(np.asarray(mons[0].opp_exp)[idx])
+                    res.violations.append(Violation(
+                        "C13", "displacement_against_force_too_frequent", f"driver={sc['driver']}",
+                        f"coordinate {idx}: {int(o)} of {nst} draws point against the force, the Bal-Neyts density allows "
+                        f"{e:.2f} +- {sd:.2f} (confirmed over 4 fresh seeds); stage 1 flagged {fl[0]}"))
         if sc.get("collect") and not res.violations and not res.harness_error:
             flags = [x for x in density_flags(mon) if x[0] > 2.2]  # ~ alpha 1e-4 per coordinate
             res.count("probe.density_coordinates_tested", len(density_flags(mon)))
